@@ -334,6 +334,62 @@ Proof.
     [rewrite E1|rewrite E2]; reflexivity.
 Qed.
 
+(* 2b. the outputs of a history, kept and read again after the last call *)
+Lemma run_keep_fresh wire (marshal : pmsg -> wire) :
+  forall ops cur h0 s,
+  run_keep wire marshal false ops cur (h0, s) =
+  (h0 ++ map marshal (values_at_marshal ops cur),
+   seq (length h0) (length (values_at_marshal ops cur))).
+Proof.
+  induction ops as [|[m| |] ops IH]; intros cur h0 s; simpl.
+  - rewrite app_nil_r. reflexivity.
+  - apply IH.
+  - apply IH.
+  - rewrite IH. rewrite <- app_assoc. simpl. rewrite app_length. simpl.
+    rewrite PeanoNat.Nat.add_1_r. reflexivity.
+Qed.
+
+Lemma reread_cells W R (f : W -> R) : forall (l pre : list W),
+  map (fun i => option_map f (nth_error (pre ++ l) i)) (seq (length pre) (length l)) =
+  map (fun w => Some (f w)) l.
+Proof.
+  induction l as [|x l IH]; intros pre; simpl; [reflexivity|].
+  rewrite nth_error_app2 by apply le_n. rewrite PeanoNat.Nat.sub_diag. simpl. f_equal.
+  specialize (IH (pre ++ [x])). rewrite <- app_assoc in IH. simpl in IH.
+  rewrite app_length in IH. simpl in IH. rewrite PeanoNat.Nat.add_1_r in IH. exact IH.
+Qed.
+
+Lemma codec_outputs_are_values_any wire (marshal : pmsg -> wire) (unmarshal : wire -> codec_result) :
+  forall ops cur,
+  reread_outputs wire marshal unmarshal false ops cur =
+  map (fun m => Some (unmarshal (marshal m))) (values_at_marshal ops cur).
+Proof.
+  intros ops cur. unfold reread_outputs. rewrite run_keep_fresh.
+  rewrite <- (map_length marshal (values_at_marshal ops cur)).
+  rewrite (reread_cells _ _ unmarshal (map marshal (values_at_marshal ops cur)) []).
+  rewrite map_map. reflexivity.
+Qed.
+
+Lemma codec_outputs_are_values_proof :
+  (forall wire (marshal : pmsg -> wire) unmarshal ops cur,
+     reread_outputs wire marshal unmarshal false ops cur =
+     map (fun m => Some (unmarshal (marshal m))) (values_at_marshal ops cur)) /\
+  (forall wire marshal_bin unmarshal_bin marshal_json unmarshal_json json_unknown,
+     @bin_contract wire marshal_bin unmarshal_bin ->
+     json_contract marshal_json unmarshal_json json_unknown ->
+     forall ops cur, Forall (fun m => ~ has_unknown m) (values_at_marshal ops cur) ->
+     reread_outputs wire (strict_proto_marshal wire marshal_bin) (strict_proto_unmarshal wire unmarshal_bin) false ops cur =
+       map (fun m => Some (COk m)) (values_at_marshal ops cur) /\
+     reread_outputs wire (strict_json_marshal wire marshal_json) (strict_json_unmarshal wire unmarshal_json) false ops cur =
+       map (fun m => Some (COk m)) (values_at_marshal ops cur)).
+Proof.
+  split; [exact codec_outputs_are_values_any|].
+  intros wire mb ub mj uj ju HB HJ ops cur HF. rewrite !codec_outputs_are_values_any.
+  split; apply map_ext_in; intros m Hm; rewrite Forall_forall in HF; specialize (HF m Hm);
+    destruct (codec_roundtrip_proof wire mb ub mj uj ju HB HJ m HF) as [E1 E2];
+    [rewrite E1|rewrite E2]; reflexivity.
+Qed.
+
 (* ---------------------------------------------------------------------- *)
 (* 3. detail bytes are handed on, never looked at                          *)
 (* ---------------------------------------------------------------------- *)
